@@ -12,10 +12,15 @@
 (* inode at open and reads it in one or more steps.                        *)
 (* TLC must refute NoTornRead for "inplace" (and for shared temp names)    *)
 (* and accept it for "rename" with unique names.                           *)
+(* WriteMode = "unlink_rename" models a variant that removes the live name *)
+(* before renaming the finished temporary file over it: no torn read, but  *)
+(* a reader (or a kill) in between finds the key absent although a Set had *)
+(* completed and nobody deleted it - refuted through NoLostValue.          *)
 (***************************************************************************)
 EXTENDS Integers, Sequences, FiniteSets, TLC
 
-CONSTANTS Writers, Readers, Deleters, Vals, Chunks, WriteMode, TmpNames
+CONSTANTS Writers, Readers, Deleters, Vals, Chunks, WriteMode, TmpNames,
+          Touch    \* update_mtime: "off"; "strict" = a failing mtime update fails the Get (the pinned tree); "lenient" = it is ignored
 
 VARIABLES dir,     \* name -> inode id (0: no such name); names: "live" and temporary names
           ino,     \* inode id -> sequence of pieces
@@ -29,6 +34,8 @@ vars == <<dir, ino, next, wpc, wval, wino, wn, rpc, rino, rbuf, dpc, results, ok
 
 Full(v) == [i \in 1..Chunks |-> <<v, i>>]
 NX == <<<<0, 0>>>>          \* "the key does not exist" (values are positive)
+ERR == <<<<0, 2>>>>         \* an error that is neither a value nor "does not exist"
+LOST == <<<<0, 1>>>>        \* "does not exist" answered although a Set had completed and no Delete had begun
 Live == <<"live", 0>>
 Tmp(w) == IF TmpNames = "shared" THEN <<"tmp", 0>> ELSE <<"tmp", w>>
 Names == {Live, <<"tmp", 0>>} \cup {<<"tmp", w>> : w \in Writers}
@@ -81,8 +88,14 @@ WriteDone(w) ==
   /\ wpc[w] = "write" /\ wn[w] = Chunks
   /\ IF WriteMode = "inplace"
        THEN wpc' = [wpc EXCEPT ![w] = "done"] /\ ok' = ok \cup {w} /\ UNCHANGED dir
-     ELSE wpc' = [wpc EXCEPT ![w] = "rename"] /\ UNCHANGED <<dir, ok>>
+     ELSE wpc' = [wpc EXCEPT ![w] = IF WriteMode = "unlink_rename" THEN "unlink" ELSE "rename"] /\ UNCHANGED <<dir, ok>>
   /\ UNCHANGED <<ino, next, wval, wino, wn, rpc, rino, rbuf, dpc, results>>
+
+\* only in the "unlink_rename" variant: the live name goes away first
+Unlink(w) ==
+  /\ wpc[w] = "unlink"
+  /\ dir' = [dir EXCEPT ![Live] = 0] /\ wpc' = [wpc EXCEPT ![w] = "rename"]
+  /\ UNCHANGED <<ino, next, wval, wino, wn, rpc, rino, rbuf, dpc, results, ok>>
 
 Rename(w) ==
   /\ wpc[w] = "rename"
@@ -92,7 +105,7 @@ Rename(w) ==
 
 \* the writing process dies at any point; whatever is on disk stays
 Kill(w) ==
-  /\ wpc[w] \in {"create", "write", "rename"}
+  /\ wpc[w] \in {"create", "write", "unlink", "rename"}
   /\ wpc' = [wpc EXCEPT ![w] = "dead"]
   /\ UNCHANGED <<dir, ino, next, wval, wino, wn, rpc, rino, rbuf, dpc, results, ok>>
 
@@ -100,7 +113,8 @@ Kill(w) ==
 GetOpen(r) ==
   /\ rpc[r] = "idle"
   /\ IF dir[Live] = 0
-       THEN rpc' = [rpc EXCEPT ![r] = "done"] /\ results' = results \cup {<<r, NX>>} /\ UNCHANGED <<rino, rbuf>>
+       THEN rpc' = [rpc EXCEPT ![r] = "done"] /\ results' = results \cup {<<r, IF ok # {} /\ \A d \in Deleters : dpc[d] = "idle" THEN LOST ELSE NX>>}
+            /\ UNCHANGED <<rino, rbuf>>
      ELSE rpc' = [rpc EXCEPT ![r] = "read"] /\ rino' = [rino EXCEPT ![r] = dir[Live]] /\ rbuf' = [rbuf EXCEPT ![r] = <<>>]
           /\ UNCHANGED results
   /\ UNCHANGED <<dir, ino, next, wpc, wval, wino, wn, dpc, ok>>
@@ -113,7 +127,17 @@ ReadSome(r) ==
 
 ReadEOF(r) ==
   /\ rpc[r] = "read" /\ Len(rbuf[r]) >= Len(ino[rino[r]])
-  /\ rpc' = [rpc EXCEPT ![r] = "done"] /\ results' = results \cup {<<r, rbuf[r]>>}
+  /\ IF Touch = "off"
+       THEN rpc' = [rpc EXCEPT ![r] = "done"] /\ results' = results \cup {<<r, rbuf[r]>>}
+     ELSE rpc' = [rpc EXCEPT ![r] = "touch"] /\ UNCHANGED results
+  /\ UNCHANGED <<dir, ino, next, wpc, wval, wino, wn, rino, rbuf, dpc, ok>>
+
+\* update_mtime: after the value has been read, the file is touched BY NAME - the name may be gone by now
+\* (or stand for another inode: harmless, the newer file gets the newer time)
+TouchLive(r) ==
+  /\ rpc[r] = "touch"
+  /\ rpc' = [rpc EXCEPT ![r] = "done"]
+  /\ results' = results \cup {<<r, IF dir[Live] = 0 /\ Touch = "strict" THEN ERR ELSE rbuf[r]>>}
   /\ UNCHANGED <<dir, ino, next, wpc, wval, wino, wn, rino, rbuf, dpc, ok>>
 
 \* ---- deleter ----------------------------------------------------------
@@ -123,14 +147,19 @@ Delete(d) ==
   /\ UNCHANGED <<ino, next, wpc, wval, wino, wn, rpc, rino, rbuf, results, ok>>
 
 Next ==
-  \/ \E w \in Writers : (\E v \in Vals : SetBegin(w, v)) \/ Create(w) \/ WriteChunk(w) \/ WriteFails(w) \/ WriteDone(w) \/ Rename(w) \/ Kill(w)
-  \/ \E r \in Readers : GetOpen(r) \/ ReadSome(r) \/ ReadEOF(r)
+  \/ \E w \in Writers : (\E v \in Vals : SetBegin(w, v)) \/ Create(w) \/ WriteChunk(w) \/ WriteFails(w) \/ WriteDone(w) \/ Unlink(w) \/ Rename(w) \/ Kill(w)
+  \/ \E r \in Readers : GetOpen(r) \/ ReadSome(r) \/ ReadEOF(r) \/ TouchLive(r)
   \/ \E d \in Deleters : Delete(d)
 
 Spec == Init /\ [][Next]_vars
 
 \* a completed Get returns, in full, a value that was passed to some Set - or reports the key absent
 NoTornRead == \A res \in results : res[2] = NX \/ \E v \in Vals : res[2] = Full(v)
+\* a key that some Set has stored and nobody deletes is never reported absent (linearisable with the completed Set)
+NoLostValue == \A res \in results : res[2] # LOST
+\* ... and is still there when every writer is at rest or dead
+LiveKept == (\A w \in Writers : wpc[w] \in {"idle", "done", "failed", "dead"}) /\ ok # {} /\ (\A d \in Deleters : dpc[d] = "idle")
+              => dir[Live] # 0
 \* what is on disk under the live name when nobody is writing is a complete value
 LiveComplete == (\A w \in Writers : wpc[w] \in {"idle", "done", "failed", "dead"}) /\ dir[Live] # 0
                   => \E v \in Vals : ino[dir[Live]] = Full(v)
